@@ -24,6 +24,7 @@ func baseCfg(r *Rng) Config {
 		cfg.InitIDs = []uint32{0}
 	}
 	cfg.StateCBReenters = r.chance(0.2)
+	cfg.CloseErr = r.chance(0.15)
 	return cfg
 }
 
@@ -930,10 +931,14 @@ func genC12Base(r *Rng) *Scenario {
 	depth := int(r.between(1, 3))
 	t := int64(0)
 	prev := -1
+	cli, conn := 0, 1
+	sameClient := false // the next Retry is made on the client of the previous attempt, whose connection is still up
 	for d := 0; d <= depth; d++ {
-		cli := d
-		conn := d + 1
-		sc.Ops = append(sc.Ops, Op{AtUs: t, Actor: 10 + d, Kind: "connect", Cli: cli})
+		if !sameClient {
+			cli, conn = d, d+1
+			sc.Ops = append(sc.Ops, Op{AtUs: t, Actor: 10 + d, Kind: "connect", Cli: cli})
+		}
+		sameClient = false
 		t += 1000
 		var op Op
 		if d == 0 {
@@ -988,6 +993,9 @@ func genC12Base(r *Rng) *Scenario {
 				cause = "peereof"
 			}
 			genCause(sc, cause, t+600, me, cli, conn)
+			if (cause == "cancel" || cause == "deadline") && r.chance(0.5) {
+				sameClient = true // only the caller gave up: the handle is used on the same, still connected client
+			}
 		case 2: // between PUBREC and PUBCOMP
 			sc.Script = append(sc.Script, Out{Conn: conn, AtUs: t + 300, Kind: "release", Held: -1})
 			if cause == "writeerr" {
